@@ -8,34 +8,37 @@ Definition fop : Type := @op float.
 
 Definition zn (n : nat) : Z := Z.of_nat n.
 
-(* raw state, in the order printed by `dump` of the harness *)
-Definition dump_est (st : fest) : list Z :=
+(* raw state, in the order printed by `dump` of the harness: the integers and,
+   separately, the floats (vector, matrix, wander and decay values) *)
+Definition dump_ints (st : fest) : list Z :=
   [e_time st; zn (m_rows (e_state st)); zn (m_cols (e_state st));
    zn (m_rows (e_unc st)); zn (m_cols (e_unc st)); zn (length (e_clocks st))]
-  ++ flat_map (fun c => [ci_id c; zn (ci_base c); bits_of_float (ci_wander c)]) (e_clocks st)
+  ++ flat_map (fun c => [ci_id c; zn (ci_base c)]) (e_clocks st)
   ++ [zn (length (e_ext st))] ++ e_ext st
   ++ [zn (length (e_links st))]
-  ++ flat_map (fun l => [snd (li_id l); zn (li_index l); bits_of_float (li_decay l)]) (e_links st)
-  ++ map bits_of_float (m_data (e_state st))
-  ++ map bits_of_float (m_data (e_unc st)).
+  ++ flat_map (fun l => [snd (li_id l); zn (li_index l)]) (e_links st).
+Definition dump_floats (st : fest) : list float :=
+  map (@ci_wander float) (e_clocks st) ++ map (@li_decay float) (e_links st)
+  ++ m_data (e_state st) ++ m_data (e_unc st).
 
 Definition code_of {X} (r : res X) : Z :=
   match r with Ok _ => 0 | Err e => e | Panic _ => -1 end.
 
-(* a history: Some op, or None = print the raw state here *)
-Fixpoint run_hist (ops : list (option fop)) (st : fest) : list Z :=
+(* a history: Some op, or None = print the raw state here.  Result: the result
+   class of every operation and the raw states at the checkpoints and at the end *)
+Fixpoint run_hist (ops : list (option fop)) (st : fest) : list Z * list float :=
   match ops with
-  | [] => dump_est st
-  | None :: r => 0 :: dump_est st ++ run_hist r st
+  | [] => (dump_ints st, dump_floats st)
+  | None :: r => let (i, f) := run_hist r st in (0 :: dump_ints st ++ i, dump_floats st ++ f)
   | Some o :: r =>
       match apply float_ops o st with
-      | Ok st' => 0 :: run_hist r st'
-      | Err e => e :: run_hist r st
-      | Panic _ => -1 :: run_hist r st
+      | Ok st' => let (i, f) := run_hist r st' in (0 :: i, f)
+      | Err e => let (i, f) := run_hist r st in (e :: i, f)
+      | Panic _ => let (i, f) := run_hist r st in (-1 :: i, f)
       end
   end.
 
-Definition c42_run (inp : Z * list (option fop)) : list Z :=
+Definition c42_run (inp : Z * list (option fop)) : list Z * list float :=
   run_hist (snd inp) (empty float_ops (fst inp)).
 
 Fixpoint list_eqb (a b : list Z) : bool :=
@@ -44,3 +47,7 @@ Fixpoint list_eqb (a b : list Z) : bool :=
   | x :: a', y :: b' => (x =? y) && list_eqb a' b'
   | _, _ => false
   end.
+(* floats are compared as bit patterns (NaNs canonicalised) *)
+Definition out_eqb (a b : list Z * list float) : bool :=
+  list_eqb (fst a) (fst b) && list_eqb (map bits_of_float (snd a)) (map bits_of_float (snd b)).
+Definition c42_case : Type := (N * (Z * list (option fop)) * (list Z * list float))%type.
